@@ -310,7 +310,9 @@ def job_symbolic(job):
                         # explicit numeric zeros as well: part of a grade may vanish identically while the rest does not
                         vals.append(sympy.Rational(rng.randint(-4, 4) if rng.random() < 0.5 else (rng.randint(-4, 4) or 2), rng.randint(1, 3)))
                 return vals, env
-            av, aenv = mixed('a', ak)
+            # operand names as kingdon itself makes them (alg.vector(name='x') -> x0, x1, ..): 'x' is also the stem sympy's common
+            # subexpression elimination uses for its temporaries, which a generated function must keep apart from the user's symbols
+            av, aenv = mixed('a' if it % 2 == 0 else 'x', ak)
             bv, benv = mixed('b', bk)
             if cfg.get('graded') or it % 3 == 2:
                 # a numeric operand with exact zeros next to non-zero entries: some result coefficients of a grade vanish
@@ -334,12 +336,19 @@ def job_symbolic(job):
                         o.append(F(int(q.p), int(q.q)))
                 return o
             an, bn = mv_from(alg, ak, num(av)), mv_from(alg, bk, num(bv))
-            for name in job['ops']:
+            chains = {'chain: a + b*(b|b)': lambda p_, q_: p_ + q_ * (q_ | q_), 'chain: a - (b*b)*b': lambda p_, q_: p_ - (q_ * q_) * q_,
+                      'chain: (a + b*b) ^ b': lambda p_, q_: (p_ + q_ * q_) ^ q_}
+            for name in list(job['ops']) + list(chains):
                 binary = name in BINARY + ['div']
                 out['evaluations'] += 1
                 pats.add((json.dumps(cfg, sort_keys=True), name, ak, bk))
-                sres = _safe(lambda: getattr(alg, name)(a, b) if binary else getattr(alg, name)(a))
-                nres = _safe(lambda: getattr(alg, name)(an, bn) if binary else getattr(alg, name)(an))
+                if name in chains:
+                    # a few operator chains: results in which some coefficients are bare symbols and others share subexpressions
+                    sres = _safe(lambda: chains[name](a, b))
+                    nres = _safe(lambda: chains[name](an, bn))
+                else:
+                    sres = _safe(lambda: getattr(alg, name)(a, b) if binary else getattr(alg, name)(a))
+                    nres = _safe(lambda: getattr(alg, name)(an, bn) if binary else getattr(alg, name)(an))
                 if nres[0] == 'raise':
                     continue     # a pole of the numeric evaluation
                 if sres[0] == 'raise':
